@@ -187,6 +187,7 @@ func (r *rwRT) ruleOracles() {
 		pos := r.w.FnPos(fn)
 		yieldObj, fromObj := Sym{Name: "obj:Yield", NN: true, Uniq: true}, Sym{Name: "obj:YieldFrom", NN: true, Uniq: true}
 		var callee AV
+		var useNode, useObj AV // an identifier of the file and the object it denotes (ObjectOf / Uses)
 		d := r.newApplyDriver(fn, []AV{Sym{Name: "r", NN: true}, Sym{Name: "pkg", NN: true}, Sym{Name: "f", NN: true}},
 			rwConfig{root: fn, boundaries: map[string]bool{"collectYieldFunc": false}},
 			map[string]AV{"r.yieldFunc": yieldObj, "r.yieldFromFunc": fromObj},
@@ -199,6 +200,11 @@ func (r *rwRT) ruleOracles() {
 					return []Answer{{Ret: []AV{callee}, NoEvent: true}}
 				case "isIterator":
 					return []Answer{{Ret: []AV{mkBool(true)}, NoEvent: true}}
+				case "ObjectOf":
+					if useNode != nil && len(cc.Args) > 0 && sameAV(unwrap(cc.Args[len(cc.Args)-1]), unwrap(useNode)) {
+						return []Answer{{Ret: []AV{useObj}, NoEvent: true}}
+					}
+					return []Answer{{Ret: []AV{Nil{}}, NoEvent: true}}
 				}
 				return nil
 			})
@@ -302,6 +308,37 @@ func (r *rwRT) ruleOracles() {
 			}
 			if _, isNil := litResults.(Nil); isNil && err != nil {
 				err = fmt.Errorf("for function literals without a result list: %v", err)
+			}
+		}
+		// Yield / YieldFrom used as a *value* (`y := Yield[int]; y(1)`, a callback argument): no call statement to
+		// lower, the stub of package co would be called at run time and the value silently lost. Such a use must end
+		// in a diagnostic by the time the file has been traversed. (The identifier is shown to the traversal with its
+		// object; that it is not the callee of a call is what "no call node follows" means.)
+		{
+			id := r.node("Ident", "use")
+			fileNode := r.node("File", "file")
+			for _, ob := range []AV{yieldObj, fromObj} {
+				useNode, useObj = id, ob
+				sts := []*State{d.base}
+				for _, stp := range []step{{"pre", fileNode}, {"pre", F}, {"pre", id}, {"post", id}, {"post", F}, {"post", fileNode}} {
+					cb := d.pre
+					if stp.cb == "post" {
+						cb = d.pst
+					}
+					var next []*State
+					for _, st := range sts {
+						for _, o := range d.step(st, cb, stp.node) {
+							if !o.Panicked {
+								next = append(next, o.St)
+							}
+						}
+					}
+					sts = next
+				}
+				useNode, useObj = nil, nil
+				c.check(len(sts) == 0, "RW.ORACLE", "a use of "+strings.TrimPrefix(argLabel(ob), "obj:")+" that is not called is rejected", pos,
+					"an identifier denoting the API function that is not the callee of a call ends the traversal of the file in a diagnostic",
+					fmt.Sprintf("%d path(s) of the collector complete although the file uses the API function as a value (`y := Yield[int]; y(1)`): nothing lowers such a use, the generated code calls the stub of package co and the value is lost", len(sts)))
 			}
 		}
 		r.account(d.in)
